@@ -700,7 +700,8 @@ def rule_X2(ctx):
         raise AnalysisBroken("ex_region no longer takes (loc, beg, end)")
     begp, endp = pn[1], pn[2]
     LEN = "lbuf_len(ex_lbuf())"
-    rets = [r for r in cfg.return_nodes() if cval(r.get("e")) == 0]
+    # returns that may be 0: constant 0 or any non-constant value
+    rets = [r for r in cfg.return_nodes() if cval(r.get("e")) in (0, None)]
     if not rets:
         raise AnalysisBroken("ex_region has no `return 0`")
     n_paths = 0
@@ -726,7 +727,33 @@ def rule_X2(ctx):
                     hyps += cmp_constraints(c, it[2], subst)
                 else:
                     n = f.nodes.get(it[1])
-                    if n is None or n["k"] != "bin" or n["op"] != "=":
+                    if n is None:
+                        continue
+                    # any store to (or address-taking call on) a variable kills the facts that
+                    # mention it: `(*loc)` after `loc++` is another byte
+                    killed = set()
+                    if n["k"] == "un" and n["op"] in ("post++", "pre++", "post--", "pre--"):
+                        v = lv_var(n["e"])
+                        if v and not v[2]:
+                            killed.add(v[0])
+                    if n["k"] == "bin" and n["op"] in ("=", "+=", "-="):
+                        v = lv_var(n["l"])
+                        if v and not v[2]:
+                            killed.add(v[0])
+                    if n["k"] == "call":
+                        for a in n["args"]:
+                            a = strip_casts(a)
+                            if a["k"] == "un" and a["op"] == "&" and a["e"]["k"] == "ref":
+                                killed.add(a["e"]["name"])
+                    if killed:
+                        import re as _re
+                        pat = _re.compile(r"\b(%s)\b" % "|".join(_re.escape(x) for x in killed))
+
+                        def mentions_killed(h):
+                            l = h[1] if isinstance(h, tuple) else h
+                            return any(pat.search(a) for a in l.c)
+                        hyps = [h for h in hyps if not mentions_killed(h)]
+                    if n["k"] != "bin" or n["op"] != "=":
                         continue
                     lv = n["l"]
                     if lv["k"] == "un" and lv["op"] == "*" and lv["e"]["k"] == "ref" \
